@@ -181,7 +181,7 @@ fn texts(tree: &RefValue, ra: &[u8], rb: &[u8], ca: &[u8], cb: &[u8]) -> (String
 
 pub fn run(ctx: &mut Ctx) {
 	if ctx.wants("M_rewriting_pairs") {
-		let n = ctx.pick(60_000, 600_000);
+		let n = ctx.pick(150_000, 600_000);
 		let fam = Fam::new("M_rewriting_pairs", "proptest (metamorphic): one I-JSON tree, two rewritings that differ in whitespace, member order at every level (random shuffles), escape spelling and exact respellings of every number (exponent shifting, trailing zeros, e/E/+, leading zeros in the exponent; value preserved by construction): canonical bytes equal; canonicalizing twice = once; canonical text is a fixed point; structure/strings/literals preserved and every number keeps its double; object queries and the hook-dumped index stay consistent; non-trivial = the two rewritings differ in member order and in a number spelling", false);
 		let fam = run_proptest(
 			ctx,
